@@ -490,13 +490,7 @@ func (fc *FnCtx) heapAxioms(v Term, c string, bound Term) {
 	case inner == "(Array Int Slice)":
 		fc.emit(fmt.Sprintf("(assert (forall ((q Ptr) (i Int)) (! (and (wfslice (select (select %s q) i)) (< (rootid (sl_arr (select (select %s q) i))) %s)) :pattern ((select (select %s q) i)))))", v.S, v.S, bound.S, v.S))
 	}
-	if r, ok := fc.compRange[c]; ok {
-		if strings.HasPrefix(inner, "(Array Int") {
-			fc.emit(fmt.Sprintf("(assert (forall ((q Ptr) (i Int)) (! (and (<= %s (select (select %s q) i)) (<= (select (select %s q) i) %s)) :pattern ((select (select %s q) i)))))", r[0], v.S, v.S, r[1], v.S))
-		} else {
-			fc.emit(fmt.Sprintf("(assert (forall ((q Ptr)) (! (and (<= %s (select %s q)) (<= (select %s q) %s)) :pattern ((select %s q)))))", r[0], v.S, v.S, r[1], v.S))
-		}
-	}
+	_ = inner
 }
 
 func (fr *Frame) execBlock(b *ssa.BasicBlock, st *State, in map[*ssa.BasicBlock][]*State) {
@@ -558,13 +552,13 @@ func (fr *Frame) checkBackEdges() {
 	}
 	sort.Slice(heads, func(i, j int) bool { return heads[i].Index < heads[j].Index })
 	for _, to := range heads {
-		ns := fc.merge(fr.backStates[to], "back")
 		li := fr.loops[to]
-		{
-			ls := fr.loopSpec(li)
-			if ls == nil {
-				continue
-			}
+		ls := fr.loopSpec(li)
+		if ls == nil {
+			continue
+		}
+		// one obligation per back edge and invariant: single-path VCs are much easier for the solvers
+		for ei, ns := range fr.backStates[to] {
 			env := fr.invEnv(li, ns)
 			for k, inv := range ls.Invariants {
 				t, err := fc.evalGoal(env, inv)
@@ -575,6 +569,9 @@ func (fr *Frame) checkBackEdges() {
 				name := fmt.Sprintf("loop%d.inv%d.preserved", li.ordinal, k+1)
 				if inv.Label != "" {
 					name = fmt.Sprintf("loop%d.%s.preserved", li.ordinal, inv.Label)
+				}
+				if len(fr.backStates[to]) > 1 {
+					name += fmt.Sprintf(".e%d", ei+1)
 				}
 				fc.addObligation(ns, "invariant", fr.oblName(name), t, to.Instrs[0].Pos(), inv.Src)
 			}
